@@ -20,6 +20,9 @@ type ctxKey struct{}
 // Case: "<kind none|sync|async> <loggerLevel-hex> <refLevel-hex> <hooks: 3 bits time,string,fields>"
 type ctxBox struct{ ctx context.Context }
 
+// how many context fields the hook returns for call n
+func c10CtxFieldCount(n int64) int { return []int{1, 8, 9, 33, 2, 16, 17}[n%7] }
+
 // For each of the 15 entry points (+ Record at every probe level of C01) one call with its own context.
 // Observation: "err" or per call "<gen> <time calls:ctx ok> <string calls:ctx ok> <fields calls:ctx ok> <event seen 0|1> <content ok 0|1|->"
 func runC10(cases []string, out *bufio.Writer, _ []string) {
@@ -68,7 +71,11 @@ func runC10(cases []string, out *bufio.Writer, _ []string) {
 			log.FieldsFromContext = func(ctx context.Context) []log.Field {
 				nFld.Add(1)
 				check(ctx)
-				return []log.Field{log.Int("ctxfield", curCtx.Load())}
+				fs := []log.Field{log.Int("ctxfield", curCtx.Load())}
+				for j := 1; j < c10CtxFieldCount(curCtx.Load()); j++ { // any number of context fields, beyond any inline capacity
+					fs = append(fs, log.Int(fmt.Sprintf("cx%dz", j), int64(j)))
+				}
+				return fs
 			}
 		}
 		recReset()
@@ -170,6 +177,13 @@ func runC10(cases []string, out *bufio.Writer, _ []string) {
 					a, b := strings.Index(s, "ctxfield"), strings.Index(s, id)
 					if a < 0 || a > b {
 						content = "0"
+					}
+					for j := 1; j < c10CtxFieldCount(int64(i+1)); j++ { // every context field, in order, ahead of the call's own fields
+						p := strings.Index(s, fmt.Sprintf("cx%dz", j))
+						if p < a || p > b {
+							content = "0"
+						}
+						a = p
 					}
 				}
 			}
